@@ -142,7 +142,10 @@ func (h *vfE2H) doSub(t, c int, eph bool, mtMs int64, sample int, buf int) int {
 		if rc != nil {
 			rc.RLock()
 			for _, x := range rc.clients {
-				cl := x.(*clientV2)
+				cl, isReal := x.(*clientV2)
+				if !isReal {
+					continue
+				}
 				cl.metaLock.RLock()
 				if cl.ClientID == fmt.Sprintf("k%d", k) {
 					cn.cl = cl
@@ -879,6 +882,16 @@ func (h *vfE2H) exec(line string) {
 		h.doF8(ai(1), w[2])
 	case "overshoot":
 		h.doOvershoot(ai(1))
+	case "lateanswer": // lateanswer A B seq fin|req|touch
+		h.doLateAnswer(ai(1), ai(2), w[3], w[4])
+	case "finscan": // finscan K seq
+		h.doFinScan(ai(1), w[2])
+	case "busysub": // busysub T Cnew
+		h.doBusySub(ai(1), ai(2))
+	case "stall": // stall T C n size
+		h.doStall(ai(1), ai(2), ai(3), ai(4))
+	case "slowpause": // slowpause T C nfake
+		h.doSlowPause(ai(1), ai(2), ai(3))
 	}
 }
 
